@@ -1,0 +1,17 @@
+//go:build verif
+
+package miner
+
+// Verification hook of the transaction-life family (build tag `verif` only; add-only).
+
+import (
+	"context"
+
+	"0chain.net/chaincore/block"
+)
+
+// VerifUpdateFinalizedBlock is the synchronous body of UpdateFinalizedBlock (which only starts it in a
+// goroutine): what a miner does with its transaction pool when a block becomes final.
+func (mc *Chain) VerifUpdateFinalizedBlock(ctx context.Context, b *block.Block) error {
+	return mc.updateFinalizedBlock(ctx, b)
+}
